@@ -49,20 +49,51 @@ func (al alphabet) universe() []string {
 	return append([]string{al.G1, al.G2, al.G3, al.A1, al.A2, al.B1, al.T1, al.T2, al.C1, al.Never}, oldTokens...)
 }
 
+// origin names the list of the configuration IN FORCE that holds tok; a token that only the other configuration of
+// a reload pair holds is "replaced-by-reload" (reload applied) or "of-refused-config" (reload rejected).
 func origin(c cfgSpec, tok string) string {
+	eff := c.inForce()
 	switch {
-	case member(tok, c.Global):
+	case member(tok, eff.Global):
 		return "global"
-	case member(tok, c.A):
+	case member(tok, eff.A):
 		return "routeA"
-	case member(tok, c.B):
+	case member(tok, eff.B):
 		return "routeB"
-	case member(tok, c.Admin):
+	case member(tok, eff.Admin):
 		return "admin"
-	case member(tok, oldTokens):
+	}
+	if o := c.notInForce(); o != nil && (member(tok, o.Global) || member(tok, o.A) || member(tok, o.B) || member(tok, o.Admin)) {
+		if c.Refused {
+			return "of-refused-config"
+		}
+		return "replaced-by-reload"
+	}
+	if member(tok, oldTokens) {
 		return "replaced-by-reload"
 	}
 	return "unconfigured"
+}
+
+// universeOf: every token of the alphabet, the "old" tokens and every token of both configurations of a reload pair.
+func universeOf(c cfgSpec) []string {
+	u := alphabetOf(c).universe()
+	add := func(l []string) {
+		for _, t := range l {
+			if !member(t, u) {
+				u = append(u, t)
+			}
+		}
+	}
+	for _, l := range [][]string{c.Global, c.A, c.B, c.Admin} {
+		add(l)
+	}
+	if f := c.from(); f != nil {
+		for _, l := range [][]string{f.Global, f.A, f.B, f.Admin} {
+			add(l)
+		}
+	}
+	return u
 }
 
 // ---- configuration product -------------------------------------------------
@@ -213,7 +244,7 @@ func credentials(c cfgSpec, base []string, grpc bool, thorough bool) []cred {
 	// every token of the alphabet in the documented form: members of other
 	// routes' lists, of the global list on an overriding route, of the admin
 	// list, and tokens configured nowhere. The verdict comes from membership.
-	for _, u := range al.universe() {
+	for _, u := range universeOf(c) {
 		if member(u, base) {
 			continue
 		}
@@ -238,6 +269,10 @@ type caseSpec struct {
 	Spelling string   `json:"spelling"`
 	Class    string   `json:"credential_class"`
 	Creds    []string `json:"authorization"` // null = absent
+	// After (primer_test.go): the request is sent right after a request that presented this VALID token to the same
+	// endpoint (PrimeTarget for the Pull HTTP surface) without touching the state.
+	After       string `json:"after_valid_token,omitempty"`
+	PrimeTarget string `json:"primer_target,omitempty"`
 }
 
 type refInfo struct {
@@ -392,7 +427,7 @@ var auditHeaders = map[string]string{"X-Hookaido-Audit-Reason": "c11 harness", "
 
 // reference for one HTTP request (after parsing, i.e. as any server sees it)
 func refHTTP(cs caseSpec, req *http.Request, delivered []string) refInfo {
-	c := cs.Cfg
+	c := cs.Cfg.inForce()
 	segs := canonicalSegments(req.URL.Path)
 	scope := cs.Handler
 	switch c.Deploy {
@@ -441,7 +476,7 @@ func refHTTP(cs caseSpec, req *http.Request, delivered []string) refInfo {
 }
 
 func refGRPC(cs caseSpec) refInfo {
-	c := cs.Cfg
+	c := cs.Cfg.inForce()
 	route, canonical := addressedGRPC(cs.Endpoint)
 	ri := refInfo{Scope: "pull", Route: route}
 	ri.Allow = effectiveAllowlist(c, route)
@@ -504,6 +539,11 @@ func (k *checker) expired() bool {
 func execute(w *world, cs caseSpec) (outcome, refInfo, error) {
 	if err := w.fresh(); err != nil {
 		return outcome{}, refInfo{}, err
+	}
+	if cs.After != "" {
+		if err := w.prime(cs); err != nil {
+			return outcome{}, refInfo{}, err
+		}
 	}
 	switch cs.Surface {
 	case "pull-grpc":
@@ -571,7 +611,7 @@ func failure(cs caseSpec, ri refInfo, o outcome) (kind, msg string) {
 	case vOpen:
 		// endpoint that no route declares and no global list: nothing to be
 		// authorised against — but a request carrying no configured token at all must not act
-		if judge(o.Delivered, allTokens(cs.Cfg)) == vDeny && (o.Changed || o.Leak) {
+		if judge(o.Delivered, allTokens(cs.Cfg.inForce())) == vDeny && (o.Changed || o.Leak) {
 			return "unauthorized-changed-state", "request without any configured token changed state through an unconfigured endpoint"
 		}
 	}
@@ -584,7 +624,7 @@ func configuredElsewhere(cs caseSpec) bool {
 		return false
 	}
 	tok, strict, _ := bearerOf(cs.Creds[0])
-	return strict && member(tok, allTokens(cs.Cfg))
+	return strict && member(tok, allTokens(cs.Cfg.inForce()))
 }
 
 func kindOfEndpoint(cs caseSpec, ri refInfo) string {
@@ -597,15 +637,21 @@ func kindOfEndpoint(cs caseSpec, ri refInfo) string {
 	return e
 }
 
-func (k *checker) judgeCase(w *world, cs caseSpec) {
+func (k *checker) judgeCase(w *world, cs caseSpec) (refInfo, bool) {
 	o, ri, err := execute(w, cs)
 	if err != nil {
 		k.r.Infra("%v", err)
-		return
+		return ri, false
 	}
 	r := k.r
 	r.Add("evaluations", 1)
 	r.Add("evaluations_"+cs.Surface, 1)
+	hist := cs.Cfg.history()
+	r.Add("evaluations_"+hist, 1)
+	if cs.After != "" {
+		hist += "+after-valid"
+		r.Add("evaluations_after_valid", 1)
+	}
 	op := cs.Op
 	if cs.Surface == "admin" {
 		op = cs.Method
@@ -646,7 +692,7 @@ func (k *checker) judgeCase(w *world, cs caseSpec) {
 	if i := strings.IndexByte(cclass, '#'); i >= 0 {
 		cclass = cclass[:i]
 	}
-	r.Distinct(fmt.Sprintf("%s|%s|%s|%s|%s", cs.Surface, op, cclass, vname, strict))
+	r.Distinct(fmt.Sprintf("%s|%s|%s|%s|%s|%s", cs.Surface, op, cclass, vname, strict, hist))
 	if ri.Verdict == vEither && ri.Strict {
 		acc := "refused"
 		if !o.Rejected {
@@ -670,22 +716,26 @@ func (k *checker) judgeCase(w *world, cs caseSpec) {
 	}
 	kind, msg := failure(cs, ri, o)
 	if kind == "" {
-		return
+		return ri, true
 	}
 	key := fmt.Sprintf("%s:%s:%s:%s:%s", cs.Surface, kindOfEndpoint(cs, ri), op, cclass, kind)
 	if cs.Surface == "admin" {
 		key = fmt.Sprintf("admin:%s_%s:%s:%s", cs.Method, ri.Route, cclass, kind)
 	}
+	if hist != "fresh-boot" {
+		key += ":" + hist
+	}
 	if !k.firstOf("violation " + key) {
 		r.Add("violating_rows_beyond_first_per_key", 1)
-		return
+		return ri, true
 	}
-	full := fmt.Sprintf("%s\n  config: %s\n  request: %s [%s]\n  authorization (%s): %q\n  effective allowlist: %q (reference verdict %s)\n  observed: code=%d state_changed=%v data_returned=%v",
-		msg, cs.Cfg.label(), requestLine(cs), cs.Surface, cs.Class, cs.Creds, ri.Allow, vname, o.Code, o.Changed, o.Leak)
+	full := fmt.Sprintf("%s\n  config: %s\n  history: %s\n  request: %s [%s]\n  authorization (%s): %q\n  effective allowlist: %q (reference verdict %s)\n  observed: code=%d state_changed=%v data_returned=%v",
+		msg, cs.Cfg.label(), historyText(cs), requestLine(cs), cs.Surface, cs.Class, cs.Creds, ri.Allow, vname, o.Code, o.Changed, o.Leak)
 	k.r.Violation(key, full, cs, func() bool {
 		k.recheck.Lock()
 		defer k.recheck.Unlock()
 		rw := newWorld(cs.Cfg, 900, filepath.Join(runner.Scratch(), "recheck"))
+		rw.decided = true
 		defer rw.shutdown()
 		o2, ri2, err := execute(rw, cs)
 		if err != nil {
@@ -694,6 +744,23 @@ func (k *checker) judgeCase(w *world, cs caseSpec) {
 		k2, _ := failure(cs, ri2, o2)
 		return k2 == kind
 	})
+	return ri, true
+}
+
+func historyText(cs caseSpec) string {
+	h := "fresh boot of the configuration"
+	if f := cs.Cfg.from(); f != nil {
+		h = fmt.Sprintf("booted with (%s g=%v a=%v b=%v adm=%v), then reload of the configuration above", f.Deploy, f.Global, f.A, f.B, f.Admin)
+		if cs.Cfg.Refused {
+			h += " was REJECTED by the tree: the boot configuration must still be fully in force"
+		} else {
+			h += " was reported as applied"
+		}
+	}
+	if cs.After != "" {
+		h += fmt.Sprintf("; sent right after a request that presented the valid token %q to the same endpoint", cs.After)
+	}
+	return h
 }
 
 func requestLine(cs caseSpec) string {
@@ -712,13 +779,31 @@ func (k *checker) runConfig(spec cfgSpec, slot int) {
 	defer func() {
 		w.shutdown()
 		r.Add("boots", int64(w.boots))
+		r.Add("primers_passed", int64(w.primersPassed))
+		r.Add("primers_refused", int64(w.primersRefused))
 	}()
 	if err := w.fresh(); err != nil {
 		r.Infra("%v", err)
 		return
 	}
 	r.Add("configs_booted", 1)
-	pp, ap := spec.pullPrefix(), spec.adminPrefix()
+	// the first boot of a reload pair tells whether the tree applied or rejected the reload; the table is that of
+	// the configuration in force (reload_test.go)
+	spec = w.spec
+	if spec.from() != nil {
+		switch {
+		case !spec.Refused && spec.expectApplied():
+			r.Add("reloads_applied", 1)
+		case spec.Refused && !spec.expectApplied():
+			r.Add("reloads_rejected_restart_required", 1)
+		case spec.Refused:
+			r.Add("reloads_rejected_although_only_tokens_changed", 1)
+		default:
+			r.Add("reloads_applied_although_deployment_changed", 1)
+		}
+	}
+	eff := spec.inForce() // lists, deployment and prefixes the rows are built from
+	pp, ap := eff.pullPrefix(), eff.adminPrefix()
 
 	// --- Pull API over HTTP
 	methods := []string{"POST"}
@@ -737,7 +822,8 @@ func (k *checker) runConfig(spec cfgSpec, slot int) {
 						continue
 					}
 					target := pp + fmt.Sprintf(sp.Format, op)
-					cs0 := caseSpec{Cfg: spec, Surface: "pull-http", Handler: "pull", Method: method, Target: target, Op: op, Body: httpBody(op, batch), Batch: batch, LeaseOf: sp.Lease, Spelling: sp.Name}
+					cs0 := caseSpec{Cfg: spec, Surface: "pull-http", Handler: "pull", Method: method, Target: target, Op: op, Body: httpBody(op, batch), Batch: batch, LeaseOf: sp.Lease, Spelling: sp.Name,
+						PrimeTarget: pp + fmt.Sprintf(sp.Format, "ack")}
 					// the column is derived from the allowlist the reference attaches to this request
 					probe, err := parseHTTP(rawHTTP(method, target, "", nil, nil))
 					if err != nil {
@@ -751,7 +837,7 @@ func (k *checker) runConfig(spec cfgSpec, slot int) {
 						}
 						cs := cs0
 						cs.Class, cs.Creds = cr.Class, cr.Values
-						k.judgeCase(w, cs)
+						k.row(w, cs)
 					}
 				}
 			}
@@ -776,7 +862,7 @@ func (k *checker) runConfig(spec cfgSpec, slot int) {
 					}
 					cs := cs0
 					cs.Class, cs.Creds = cr.Class, cr.Values
-					k.judgeCase(w, cs)
+					k.row(w, cs)
 				}
 			}
 		}
@@ -788,8 +874,8 @@ func (k *checker) runConfig(spec cfgSpec, slot int) {
 		adminMethods = append(adminMethods, "PATCH", "HEAD")
 	}
 	var adminCreds []cred
-	if len(spec.Admin) > 0 {
-		adminCreds = credentials(spec, spec.Admin, false, thorough)
+	if len(eff.Admin) > 0 {
+		adminCreds = credentials(spec, eff.Admin, false, thorough)
 	} else {
 		al := alphabetOf(spec)
 		adminCreds = []cred{{Class: "absent"}, {Class: "unconfigured-token", Values: []string{"Bearer " + al.T1}}}
@@ -804,14 +890,14 @@ func (k *checker) runConfig(spec cfgSpec, slot int) {
 				if k.expired() {
 					return
 				}
-				k.judgeCase(w, caseSpec{Cfg: spec, Surface: "admin", Handler: "admin", Method: method, Target: target, Op: p.Path, Body: p.Body, Spelling: p.Path, Class: cr.Class, Creds: cr.Values})
+				k.row(w, caseSpec{Cfg: spec, Surface: "admin", Handler: "admin", Method: method, Target: target, Op: p.Path, Body: p.Body, Spelling: p.Path, Class: cr.Class, Creds: cr.Values})
 			}
 		}
 	}
 
 	// --- cross-surface spellings on prefixed deployments (pull token on admin paths and vice versa are
 	// already in every column; here the PATH tries to leave its surface)
-	if spec.Deploy != "split" {
+	if eff.Deploy != "split" {
 		type xs struct{ handler, method, target, body, lease string }
 		for _, x := range []xs{
 			{"pull", "POST", "/pull/../admin/messages/cancel", `{"ids":["c11-qb"]}`, "A"},
@@ -823,7 +909,7 @@ func (k *checker) runConfig(spec cfgSpec, slot int) {
 			{"pull", "POST", "/pullx/ea/dequeue", `{"batch":1}`, "A"},
 			{"pull", "POST", "/ea/dequeue", `{"batch":1}`, "A"},
 		} {
-			base := append(append([]string{}, spec.Global...), spec.Admin...)
+			base := append(append([]string{}, eff.Global...), eff.Admin...)
 			for _, cr := range credentials(spec, base, false, thorough) {
 				if k.expired() {
 					return
@@ -841,7 +927,7 @@ func (k *checker) compileTable(specs []cfgSpec) {
 	r := k.r
 	dir := filepath.Join(runner.Scratch(), "compile-tok")
 	for _, s := range specs {
-		s.Reload = false
+		s.Reload, s.From, s.Refused = false, nil, false
 		if !k.firstOf("compiled " + s.label()) {
 			continue
 		}
@@ -892,6 +978,8 @@ func TestCheck(t *testing.T) {
 
 	// 1. compile table: exactly the incomplete configurations are rejected
 	behav := behaviouralConfigs(r)
+	// reload as a dimension: (A -> B) worlds, see reload_test.go
+	behav = append(behav, reloadPairs(r)...)
 	k.compileTable(append(append([]cfgSpec{}, behav...), compileOnlyConfigs(r)...))
 
 	// 2. behavioural table on every configuration the compiler must accept
@@ -932,6 +1020,16 @@ func TestCheck(t *testing.T) {
 	wg.Wait()
 	if k.stopped {
 		r.NotExhaustive("wall budget reached before the table was complete")
+	}
+	if n := r.Counter("reloads_rejected_although_only_tokens_changed"); n > 0 {
+		r.NotExhaustive(fmt.Sprintf("%d reloads that only edit token lists were rejected by the tree; their rows were judged against the configuration that stayed in force", n))
+	}
+	if !k.stopped {
+		for _, c := range []string{"reloads_applied", "reloads_rejected_restart_required", "primers_passed"} {
+			if r.Counter(c) == 0 {
+				r.Infra("vacuous table: counter %s is zero", c)
+			}
+		}
 	}
 
 	// 3. vacuity: with a valid token every operation of every surface did act at least once,
@@ -1014,6 +1112,7 @@ func replay(k *checker, path string) {
 		return
 	}
 	w := newWorld(cs.Cfg, 0, filepath.Join(runner.Scratch(), "replay"))
+	w.decided = true
 	defer w.shutdown()
 	k.judgeCase(w, cs)
 	fmt.Printf("replayed: %s %s [%s] authorization=%q\n", cs.Surface, requestLine(cs), cs.Cfg.label(), cs.Creds)
